@@ -47,6 +47,54 @@ def gen_case(rng, i, tier):
         case["tseed"] = rng.randint(0, 10 ** 9)
         case["shaped"] = "diamond" if i % 8 == 3 else "mirror"
         return case
+    if i % 16 == 9:
+        # SqliteMap with parallel roads linked (connect_parallelroads): axis-parallel roads on a dyadic grid / chain, with
+        # zero-length roads (two labels in one place), so that collinear roads touch without sharing a node
+        case = mcase.gen_mcase(rng, families=("simple", "distance"), width="maybe", tighten_p=0.0, sparse_p=0.3, max_obs=7,
+                               kinds=("grid", "chain_dyadic", "grid"), labels=("int",), hostile=False)
+        gen.add_hostile(rng, case["map"], selfloop_p=0.0, zero_p=0.9)
+        case["trace"] = [[round(p[0] * 8) / 8, round(p[1] * 8) / 8] for p in case["trace"]]
+        if rng.random() < 0.6:
+            # a straight road that is SPLIT at a duplicated node (two labels in one place, no road between them): the only way
+            # on is the link between the two collinear roads that touch there
+            n = rng.randint(4, 8)
+            along_x = rng.random() < 0.5
+            row = float(rng.randint(0, 4))
+            ids = list(range(1, n + 1))
+            pts = [(row, float(j)) if along_x else (float(j), row) for j in range(n)]
+            nodes = [[ids[j], list(pts[j])] for j in range(n)]
+            edges = []
+            brk = rng.randint(1, n - 2)
+            dup = n + 1
+            nodes.append([dup, list(pts[brk])])
+            twoway = rng.random() < 0.4
+            for j in range(n - 1):
+                a = ids[j] if j != brk else dup
+                edges.append([a, ids[j + 1]])
+                if twoway:
+                    edges.append([ids[j + 1], a])
+            side = n + 2
+            for _ in range(rng.randint(0, 2)):
+                j = rng.randrange(n)
+                q = (pts[j][0] + rng.choice([1.0, -1.0, 2.0]), pts[j][1]) if along_x else (pts[j][0], pts[j][1] + rng.choice([1.0, -1.0, 2.0]))
+                nodes.append([side, list(q)])
+                edges += [[ids[j], side], [side, ids[j]]]
+                side += 1
+            case["map"] = {"nodes": nodes, "edges": edges, "latlon": False, "kind": "split_road"}
+            k0 = rng.randint(0, max(0, brk - 1))
+            tr = []
+            for j in range(k0, n):
+                t = j + rng.choice([0.25, 0.5, 0.75]) if j < n - 1 else j
+                off = rng.choice([0.0, 0.125, -0.125, 0.25])
+                tr.append([row + off, t] if along_x else [t, row + off])
+            case["trace"] = tr[:rng.randint(2, len(tr))] if rng.random() < 0.3 else tr
+            case["cfg"]["max_dist"] = rng.choice([None, 1.0, 2.0])
+            case["cfg"]["max_dist_init"] = None
+            case["cfg"]["min_prob_norm"] = None
+        case["links"] = rng.choice([0.25, 0.5, 1.0, 2.0])
+        case["dyadic"] = True
+        case["tseed"] = rng.randint(0, 10 ** 9)
+        return case
     dyadic = rng.random() < 0.5
     kinds = ("grid", "chain_dyadic") if dyadic else ("random", "chain", "grid")
     case = mcase.gen_mcase(rng, width="maybe", tighten_p=0.15, sparse_p=0.0 if dyadic else 0.3, max_obs=8, kinds=kinds,
@@ -77,7 +125,7 @@ def apply(case, t, rng):
         # any comparison of labels other than equality of the whole label shows
         order = list(labs)
         rng.shuffle(order)
-        if rng.random() < 0.6:
+        if rng.random() < 0.6 or case.get("links"):
             ren = {l: int("1" * (k + 1)) for k, l in enumerate(order)}
         else:
             ch = rng.choice(["a", "-", "1-"])
@@ -105,11 +153,23 @@ def apply(case, t, rng):
     m2["nodes"], m2["edges"] = nodes, edges
     if m.get("linked"):
         m2["linked"] = [[[ren[a], ren[b]], [ren[c], ren[d]]] for (a, b), (c, d) in m["linked"]]
-    return {"map": m2, "trace": tr, "cfg": cfg}, ren
+    out = {"map": m2, "trace": tr, "cfg": cfg}
+    if case.get("links"):
+        out["links"] = case["links"] * (2.0 ** int(t[5:]) if t.startswith("scale") else 1.0)
+    return out, ren
+
+
+_SQL = {"scratch": None, "open": []}
 
 
 def run(case):
-    mt = build.make_matcher(build.make_inmem(case["map"]), case["cfg"])
+    if case.get("links"):
+        sm = build.make_sqlite(case["map"], _SQL["scratch"])
+        _SQL["open"].append(sm)
+        sm.connect_parallelroads(dist=case["links"])
+        mt = build.make_matcher(sm, case["cfg"])
+    else:
+        mt = build.make_matcher(build.make_inmem(case["map"]), case["cfg"])
     r = mt.match(build.trace(case["trace"]))
     return mt, build.canon(mt, r)
 
@@ -149,7 +209,23 @@ def translation_borderline(case, mt_base):
 
 
 def check_case(ctx, case):
+    _SQL["scratch"] = ctx.scratch
+    try:
+        return _check_case(ctx, case)
+    finally:
+        for sm in _SQL["open"]:
+            try:
+                build.close_sqlite(sm)
+            except Exception:
+                pass
+        _SQL["open"] = []
+
+
+def _check_case(ctx, case):
     base = {"map": case["map"], "trace": case["trace"], "cfg": case["cfg"]}
+    if case.get("links"):
+        base["links"] = case["links"]
+        ctx.count("linked_sqlite_base_cases")
     try:
         mt0, c0 = run(base)
     except Exception:
@@ -163,9 +239,13 @@ def check_case(ctx, case):
     fam = case["cfg"]["family"]
     if case.get("shaped"):
         ctx.count(f"shaped_class:{case['shaped']}")
+    if case.get("links") and mt0.map.db.execute("SELECT count(*) FROM close_edges").fetchone()[0]:
+        ctx.count("linked_sqlite_base_cases_with_links")
     for t in TRANSFORMS:
         if fam == "newsonkrumm" and t.startswith("scale"):
-            continue   # emissions are scored with a probability DENSITY (norm.logpdf): changes by log(s) per observation by construction
+            continue
+        if case.get("links") and t in ("rename_str", "rename_reverse"):
+            continue   # SqliteMap stores integer ids   # emissions are scored with a probability DENSITY (norm.logpdf): changes by log(s) per observation by construction
         src = case
         if t == "translate":
             if not case["dyadic"]:
@@ -177,6 +257,8 @@ def check_case(ctx, case):
             cfg2["min_prob_norm"] = None
             src = {**case, "cfg": cfg2}
             base = {"map": src["map"], "trace": src["trace"], "cfg": cfg2}
+            if case.get("links"):
+                base["links"] = case["links"]
             try:
                 mt0, c0 = run(base)
             except Exception:
